@@ -29,6 +29,9 @@ def run(ctx):
     C.check_endianness(ctx, P)
     C.check_endian_delegation(ctx, P)
     C.check_reader_totality(ctx, P)
+    from . import guardrules as R_
+
+    R_.check_scalar_importer_rejects(ctx, "E4.import-total", P)
     check_handwritten_serde(ctx, P)
     check_enum_key_wrapper(ctx, P)
     ctx.assume("serde_bare, hex and the backend's point/scalar codecs are injective and mutually inverse (dependency contract)")
